@@ -37,6 +37,8 @@ pub struct GenConfig {
     pub colour: bool,
     /// patches and splines
     pub features: bool,
+    /// splines (needs `features`)
+    pub splines: bool,
 }
 
 impl GenConfig {
@@ -66,6 +68,7 @@ impl GenConfig {
             simd_sweep: false,
             colour: true,
             features: true,
+            splines: true,
         }
     }
 
@@ -403,7 +406,7 @@ pub fn random_program(rng: &mut Rng, cfg: &GenConfig) -> Program {
                 let pdims = if cfg.safe { prog.color_sample_dims(&f) } else { dims };
                 f.patches = super::features::PatchSpec::random(&mut frng, &prog, pdims, &slots, cfg.safe);
             }
-            if frng.chance(1, 8) {
+            if frng.chance(1, 8) && cfg.splines {
                 f.splines = super::features::SplineSpec::random(&mut frng, dims);
             }
         }
